@@ -152,6 +152,7 @@ def run(ctx):
     ctx.prove("C13_log")
     if ctx.tier == "thorough":
         ctx.coqchk("C13")
+        ctx.coqchk("C13_log")
     cfgs = gen(ctx)
     results = tc.run_configs(cfgs)
     byid = {c["id"]: (c, r) for c, r in zip(cfgs, results)}
